@@ -9,7 +9,7 @@ CHECKS = {
         category="exploration",
         text="Hypothesis-generated molecules / ensembles (all elements, every enum member, nested attributes incl. bytes, numpy arrays and int keys, NaN/inf "
              "coordinates, 0 atoms, 0 conformers) are stored in fresh MoleculeLibrary / ConformerLibrary files with four buffer sizes and read back in-session, "
-             "in a later session and through a new handle (every read is followed by an in-place edit of the result and a second read of the same key, which must again show what is stored); optionally the same objects are then edited in place and stored again under new keys (old keys keep the old state), molecules are also stored as a float32-coordinate subclass, objects may carry a parallel bond, libraries are opened with several `encoding=` values; an independent field-by-field snapshot decides equality at float32 precision. Legacy (v1) files are "
+             "in a later session and through a new handle (every read is followed by an in-place edit of the result and a second read of the same key, which must again show what is stored; the Mapping views items() / values() pair every key with its own object); optionally the same objects are then edited in place and stored again under new keys (old keys keep the old state), molecules are also stored as a float32-coordinate subclass, objects may carry a parallel bond, libraries are opened with several `encoding=` values; an independent field-by-field snapshot decides equality at float32 precision. Legacy (v1) files are "
              "additionally produced by the harness' own encoder and read through the library. A round-trip oracle over generated inputs is exactly what the "
              "input-quantified statement needs.",
         design_ref="DESIGN.md section 5, C01",
@@ -30,7 +30,7 @@ CHECKS = {
     "C06": dict(
         category="exploration",
         text="Generated sources (nested mutable attributes, hydrogen hints, partial charges, 0-3 conformers) realised as each of the seven classes, copied by "
-             "every route (copy constructors same/wider/narrower, pickle, deepcopy, concatenate, |, join at attachment points), then a generated mutation script is run on one side: "
+             "every route (copy constructors same/wider/narrower, pickle, deepcopy, concatenate, |, join at attachment points; sources may carry a second bond on an already bonded pair), then a generated mutation script is run on one side: "
              "snapshot of the other side must not change, no ndarray memory and no attribute container is shared (identity walk), the copy equals the source "
              "on the fields of the route, parents and indices are right on both; after an edit of the source a second copy by the same route must show the edited state. join's geometry is C12's.",
         design_ref="DESIGN.md section 5, C06",
@@ -49,7 +49,7 @@ CHECKS = {
     ),
     "C08": dict(
         category="exploration",
-        text="Round-trip legs over generated geometries, 1-5 frame ensembles and multi-molecule xyz texts (consecutive frames of equal size and different elements) through every xyz loader entry point (count, order, elements, coordinates at "
+        text="Round-trip legs over generated geometries, 1-5 frame ensembles and multi-molecule xyz texts (consecutive frames of equal size and different elements) through every xyz loader entry point (also one open handle read piecemeal or positioned at a later geometry, and ensembles written through ml.dump(path, mode w / a)) (count, order, elements, coordinates at "
              "the written precision incl. texts beyond 1 MiB / 4 MiB, blank and non-ASCII names, Substructure views, the dump_xyz(fmt=...) option with 3-12 decimals and scientific formats, second write identical, second write after an in-place edit follows the edit); metamorphic unit leg: the same Angstrom geometry expressed in each DistanceUnit member with the "
              "physical factor held by the harness (CODATA), read with source_units through xyz and mol2 single / load_all / ensemble loaders, pairwise distances "
              "compared with the Angstrom original.",
@@ -61,8 +61,8 @@ CHECKS = {
         category="exploration",
         text="The configuration matrix {load, loads, load_all, loads_all, dump, dumps} x formats {xyz, mol2, cdxml, obabel-only, nonsense} x source/target kind "
              "{str path, Path, string, open stream} x fmt {explicit, from suffix} x otype {'molecule','ensemble', Structure, Molecule, ConformerEnsemble} x name {given, not} "
-             "x mode {a, w} x writer options {none, write_header, unknown option} x cdxml retrieval key {none, first / last label, unknown label, positional, empty} x stream kind {StringIO, real file, tempfile wrapper, codecs writer, plain object with write()} is enumerated completely on bundled files and sampled on generated single / multi-frame inputs, also with an unclean END of the file (cut inside a later structure, blank lines, a stray line: whatever the class methods make of it, the entry points make the same); a history leg re-uses one path with new contents (load, rewrite, load again). Differential oracle: same type and snapshot as the "
-             "class method, list where promised, name honoured, text in the caller's stream which stays open, no leaked descriptor, ValueError for unsupported formats.",
+             "x mode {a, w} x writer options {none, write_header, unknown option} x cdxml retrieval key {none, first / last label, unknown label, positional, empty} x stream kind {StringIO, real file, tempfile wrapper, codecs writer, plain object with write()} x path alias {symbolic link, hard link} is enumerated completely on bundled files and sampled on generated single / multi-frame inputs, also with an unclean END of the file (cut inside a later structure, blank lines, a stray line: whatever the class methods make of it, the entry points make the same); a history leg re-uses one path with new contents (load, rewrite, load again). Differential oracle: same type and snapshot as the "
+             "class method (cdxml totals additionally against the sum of the drawn charges / radicals), list where promised, name honoured, text in the caller's stream which stays open, no leaked descriptor, ValueError for unsupported formats.",
         design_ref="DESIGN.md section 5, C09",
         note="openbabel cells cannot run (skipped, counted); cdxml compared on constitution only; loads_all for ensembles has no class-level counterpart.",
         technique="exhaustive configuration-matrix enumeration + differential testing against class-level codecs",
@@ -70,7 +70,7 @@ CHECKS = {
     "C10": dict(
         category="fault_enumeration",
         text="Every truncation point (all line boundaries + every byte of the last record) of 10 bundled files and of generated multi-molecule files whose molecules "
-             "differ in atom and bond counts; random line deletions / duplications, token faults that make a token invalid for its field, serial renumbering, single bytes that are no text (file read through the path readers); plus atheris/libFuzzer "
+             "differ in atom and bond counts; random line deletions / duplications, token faults that make a token invalid for its field, serial renumbering, single bytes that are no text (file read through the path readers), bond endpoints changed to another valid atom number (counts clause only); plus atheris/libFuzzer "
              "campaigns that decode fuzz bytes into (file, fault sequence incl. arbitrary byte cuts). Oracle: the reader raises, or every returned molecule has the counts of "
              "its own header in the damaged text and the content of the molecule at that position in the undamaged file; a 60 s alarm decides termination.",
         design_ref="DESIGN.md section 5, C10",
@@ -82,7 +82,7 @@ CHECKS = {
         category="exploration",
         text="Six generated-input legs: rotation_matrix_from_vectors (general, parallel, antiparallel neighbourhood eps in {0} U 1e-12..1e-3, three tol values, perturbed "
              "np.random state) and rotation_matrix_from_axis against their algebraic definition (and the caller's arrays must be left as they were); ten rigid-motion operations on molecules / ensembles / substructures (the parent may lose or gain an atom between selection and edit) "
-             "(distance matrix, signed volumes, documented effect); rotate_dihedral on every suitable bridge bond of 8 bundled files (exhaustive) and of generated graphs; "
+             "(distance matrix, signed volumes, documented effect); rotate_dihedral on every suitable bridge bond of 8 bundled files (exhaustive) and of generated graphs (also after the molecule was queried and re-wired in place); transform() with its validate flag; "
              "align_to_ref_coords with two harness Kabsch variants (plain and internally centring, as the molli align wrappers), two index-set orders, two initial poses.",
         design_ref="DESIGN.md section 5, C11",
         note="Numerical tolerances 1e-6 (constructed matrices) / 1e-9 relative (rigid motions); collinear dihedral triples excluded; reference geometry centred as every caller does.",
@@ -93,7 +93,7 @@ CHECKS = {
         text="Constructed 3-D fragments (jittered lattice, random tree + ring closures, attachment point with any bond type, random rigid pose; also exactly parallel / "
              "antiparallel / z-aligned attachment vectors; attachment bonds of independently drawn length) are joined with generated options (dist, optimize_rotation, charge incl. 0 / mult / name / bond overrides) through "
              "Molecule.join and Structure.join, and iteratively on multi-attachment cores (all or a subset of the attachment points) exactly as molli combine does, with the real "
-             "molli.scripts.combine._ml_assemble compared against the stepwise product (a combination with a defective substituent must yield no product). Oracle: atom and bond transfer field by field, new bond "
+             "molli.scripts.combine._ml_assemble compared against the stepwise product (a combination with a defective substituent must yield no product), and end to end through molli.scripts.combine.molli_main on generated core / substituent libraries in every mode (attachment point labels out of atom order) with a structural oracle per product; attachment atoms may sit at index 0 and be untyped terminal atoms. Oracle: atom and bond transfer field by field, new bond "
              "type, proper rigid fit of each fragment (own Kabsch, mirror detected separately), bond length, frame-free bond-direction test from both fragments, charge / "
              "multiplicity, bit-identical coordinates under two np.random states, sources unchanged, nothing shared; a second join after in-place edits of both fragments is judged the same way.",
         design_ref="DESIGN.md section 5, C12",
@@ -117,7 +117,7 @@ CHECKS = {
         category="exploration",
         text="Model-based stateful testing: ensembles built through six constructor routes, then generated op lists (append of Molecule / Structure / CartesianGeometry, extend "
              "by list / ensemble / iterator, scale, translate 1-D/2-D, rotate by one matrix or by one matrix per conformer, writes through ens[i], five iteration patterns incl. nested / interleaved / zip, slices, "
-             "conformer handles kept and used after later growth, rows addressed by negative index, writes through out-of-range locators (must not land in any existing row), per-conformer dumps read back, serialisation via v2 codec / pickle / library) are interpreted on the ensemble and on three numpy arrays; rectangularity and "
+             "conformer handles kept and used after later growth, rows addressed by negative index, writes through out-of-range locators (must not land in any existing row), the ensemble's own conformers appended by positive / negative index, rotation stacks of the wrong length, per-conformer dumps read back, serialisation via v2 codec / pickle / library) are interpreted on the ensemble and on three numpy arrays; rectangularity and "
              "view consistency are checked after every step, and every geometry or ensemble that was handed in must stay untouched.",
         design_ref="DESIGN.md section 5, C14",
         note="Appended geometries have the ensemble's atom count; a new conformer's weight may be any real number; ConformerEnsemble(molecule) coordinate values not asserted.",
@@ -126,11 +126,11 @@ CHECKS = {
     "C15": dict(
         category="exploration",
         text="Exhaustive leg: all labelled simple graphs on <=5 (quick) / <=6 (thorough) atoms with every start atom, every (start, neighbour) direction and every bond; random leg: "
-             "generated forests with ring closures up to 40 atoms as Connectivity / Molecule / ConformerEnsemble / Substructure view of a bigger molecule, atoms named to the API as objects, integer indices or labels; matching leg: patterns cut from the source (wildcard, own bond "
+             "generated forests with ring closures up to 40 atoms as Connectivity / Molecule / ConformerEnsemble / Substructure view of a bigger molecule, atoms named to the API as objects, integer indices, labels or Elements; FractionalOrder bonds; bond types as members or plain integers; matching leg: patterns cut from the source (wildcard, own bond "
              "types, absent; source and pattern atoms carry unrelated atom types; bonds of every BondType member; query - in-place edit - query again; match() with one keyword callback at a time). References written for this harness: BFS distances, low-link bridge finder (cross-checked with networkx), backtracking induced-embedding search; the "
              "SET of returned mappings must equal the reference set.",
         design_ref="DESIGN.md section 5, C15",
-        note="No parallel bonds / self loops; _edge_match's type rules beyond the statement are only exercised where every rule is satisfied.",
+        note="_edge_match's type rules beyond the statement are only exercised where every rule is satisfied.",
         technique="bounded-exhaustive enumeration + random graph generation against independent reference algorithms",
     ),
     "C16": dict(
@@ -148,7 +148,7 @@ CHECKS = {
         category="fault_enumeration",
         text="Binding: ALL sequences of <=3/<=4 job accesses over three driver instances x {single, vectorised job} x {used at once, handle kept and used later}, plus in-place reconfiguration of a driver, for a harness "
              "DriverBase subclass and for XTBDriver; the prepared JobInput must carry that driver's executable / nprocs / environment. Execution: generated JobInputs (1-4 sh commands, "
-             "first failing command at every position, text / binary files incl. CR LF and NUL bytes, env override vs inherited, every return-file plan) run by run_local() in a forked "
+             "first failing command at every position, text / binary files incl. CR LF and NUL bytes, env override (also of PATH, programs named without a directory) vs inherited, every return-file plan) run by run_local() in a forked "
              "child and by the real _molli_run; oracle from marker files written by the commands themselves: order and stop-at-first-failure, private directory under scratch with exactly "
              "the input files byte for byte, environment, captured stdout/stderr, returned files, input hash, exit status iff, no scratch residue.",
         design_ref="DESIGN.md section 5, C17",
@@ -159,7 +159,7 @@ CHECKS = {
         category="fault_enumeration",
         text="Generated histories of 2-4 real jobmap runs (every job a _molli_run launch of a /bin/sh script that reads a per-item plan - ok / ok with an empty return file / fail / ok on the n-th attempt / omit "
              "the return file - and bumps a per-item execution counter) over small molecule and conformer libraries, with argument changes (new hash), pre-populated and foreign "
-             "destination keys, cache deletion / pollution with another input's output, fresh destinations on an old cache, strict and stdout-only post-processors, strict_hash on / off, job arguments by keyword or positionally, single and "
+             "destination keys, cache deletion / pollution with another input's output, fresh destinations on an old cache, strict and stdout-only post-processors, strict_hash on / off, log level critical / info / debug, job arguments by keyword or positionally, single and "
              "vectorised jobs (reduce steps that consume every per-conformer result or only the first). A model of (destination, cache, counters) predicts after every run exactly which units execute and exactly what the destination holds.",
         design_ref="DESIGN.md section 5, C18",
         note="jobmap_sge (needs qsub) and worker() are not exercised; success = all commands exit 0 and the return file exists.",
@@ -169,7 +169,7 @@ CHECKS = {
         category="exploration",
         text="Five generated-input legs on the shipped extension and the Python descriptors (12 kernel names x float widths x five memory layouts x shapes incl. empty vs. a float64 numpy "
              "reference; rectangular_grid lattice / spacing / containment / centring / count; nearest_atom_index with the cut-off passed, for ensembles and single geometries (2-40 atoms), asked again after the same objects were moved in place; prune bounds likewise; grid dtype option; "
-             "aso / aeif (weighted / unweighted, conformer weights that may be exactly zero) vs. the van-der-Waals-sphere definition with the float32 rounding band excluded and counted) plus a native leg: molli_xt/distance.cpp of the working tree is "
+             "aso / aeif (weighted / unweighted, conformer weights that may be exactly zero, an allocation failure injected into the distance kernel) vs. the van-der-Waals-sphere definition with the float32 rounding band excluded and counted) plus a native leg: molli_xt/distance.cpp of the working tree is "
              "compiled with clang++ under ASan + UBSan + libFuzzer against a header shim standing in for pybind11, and every registered name is fuzzed with the oracle inside the target.",
         design_ref="DESIGN.md section 5, C19",
         note="The shipped .so cannot be rebuilt (pybind11 absent): an edit to the C++ kernels is seen by the native leg only, an edit to pybind11-level dispatch only after a rebuild. "
@@ -180,7 +180,7 @@ CHECKS = {
         category="exploration",
         text="Bounded-exhaustive (all op sequences up to length 4/5 over an 18-letter alphabet on two raw UKVFile handles) plus random "
              "model-based histories on raw handles and on Collection sessions with stale handles and four buffer sizes, each compared "
-             "step by step with an insertion-ordered reference map; raw histories also contain puts whose stream write fails (injected OSError); Collection histories contain puts inside reading() on unbuffered handles (must fail and leave the listing alone) and write sessions left through an exception of the caller's own (the puts that succeeded stay stored); comments / descriptor blocks with edge whitespace must be preserved. Exploration is the right level: the claim is over histories, and "
+             "step by step with an insertion-ordered reference map; raw histories also contain puts whose stream write fails (injected OSError / MemoryError / KeyboardInterrupt / str value) and handle objects that are pickled / copied / deep-copied with the copy opened, listed and closed; Collection histories contain puts inside reading() on unbuffered handles (must fail and leave the listing alone) and write sessions left through an exception of the caller's own (the puts that succeeded stay stored); comments / descriptor blocks with edge whitespace must be preserved. Exploration is the right level: the claim is over histories, and "
              "a reference model decides every step; no absence proof is claimed beyond the enumerated bound.",
         design_ref="DESIGN.md section 5, C02",
         note="Trusted: the reference model in vf/props/c02.py; at most one raw writer at a time; mode 'w' only creates; python file "
@@ -200,9 +200,9 @@ CHECKS = {
     ),
     "C04": dict(
         category="fault_enumeration",
-        text="(a) harness-owned schedules: all sequences of <=2/<=3 sessions over 14 session kinds (11 failing, faults injected at body (Exception, KeyboardInterrupt, SystemExit) / encoder / flush-time "
+        text="(a) harness-owned schedules: all sequences of <=2/<=3 sessions over 15 session kinds (a writing session that first reads an existing record among them; 11 failing, faults injected at body (Exception, KeyboardInterrupt, SystemExit) / encoder / flush-time "
              "backend write / end_write / end_read / begin_write / begin_read) on handles living in three processes, with a lock probe from a fresh process after every session; "
-             "(b) a handle constructor of another process held (harness-owned gate) right before its first lock acquisition while this process creates the library and completes sessions; (c) another process sitting inside a session (gate) while this one asks with timeout 0 / 0.0 / 0.05 / 0.3: TimeoutError, never an entered session - also when the holder unpickles / deep-copies an idle handle of the same library inside its session; (d) handles pickled and unpickled after they were used; (e) real 8-16 process schedules with private scratch directories per process, the processes reaching the library through three spellings of its path (plain, sub/.., symlinked directory), with random delays whose oracle (timestamps taken inside the protected body, hand-over after failing sessions) "
+             "(b) a handle constructor of another process held (harness-owned gate) right before its first lock acquisition while this process creates the library and completes sessions; (c) another process sitting inside a session (gate) while this one asks with timeout 0 / 0.0 / 0.05 / 0.3: TimeoutError, never an entered session - also when the holder unpickles / deep-copies an idle handle of the same library inside its session, or a third process that constructed a handle earlier exits normally meanwhile; (d) handles pickled and unpickled after they were used; (e) real 8-16 process schedules with private scratch directories per process, the processes reaching the library through three spellings of its path (plain, sub/.., symlinked directory), with random delays whose oracle (timestamps taken inside the protected body, hand-over after failing sessions) "
              "cannot misfire on correct locking. Real interleavings are sampled, only session-granular schedules are exhaustive.",
         design_ref="DESIGN.md section 5, C04",
         note="Threads sharing a handle and nested same-process sessions are outside the claim; CLOCK_MONOTONIC is system-wide on Linux; fault injection by "
